@@ -77,6 +77,9 @@ type c18Plan struct {
 	Header         []Outcome     `json:"header"` // per header request, in call order
 	Heads          []c18Head     `json:"heads,omitempty"`
 	End            time.Duration `json:"end"`
+	// OddHeaders (probe only, run by C16 for crashes): the n-th header request that would succeed is answered
+	// with content lacking its data (1), its header (2) or its header's message (3).
+	OddHeaders map[int]int `json:"odd_headers,omitempty"`
 }
 
 func (pl *c18Plan) epochDur() time.Duration {
@@ -270,6 +273,7 @@ type c18Node struct {
 	script  *Script
 	byRoot  map[string]int
 	fetches []*c18Fetch
+	served  int
 }
 
 func (n *c18Node) BeaconBlockHeader(ctx context.Context, opts *api.BeaconBlockHeaderOpts) (*api.Response[*apiv1.BeaconBlockHeader], error) {
@@ -291,6 +295,19 @@ func (n *c18Node) BeaconBlockHeader(ctx context.Context, opts *api.BeaconBlockHe
 	}
 	blk := n.pl.Blocks[f.block]
 	root := c18Root(f.block)
+	var served int
+	simrt.Crit(func() { served = n.served; n.served++ })
+	switch n.pl.OddHeaders[served] {
+	case 1:
+		simrt.Probe("fault:header-without-data")
+		return &api.Response[*apiv1.BeaconBlockHeader]{Data: nil, Metadata: map[string]any{}}, nil
+	case 2:
+		simrt.Probe("fault:header-without-header")
+		return &api.Response[*apiv1.BeaconBlockHeader]{Data: &apiv1.BeaconBlockHeader{Root: root, Canonical: true}, Metadata: map[string]any{}}, nil
+	case 3:
+		simrt.Probe("fault:header-without-message")
+		return &api.Response[*apiv1.BeaconBlockHeader]{Data: &apiv1.BeaconBlockHeader{Root: root, Canonical: true, Header: &phase0.SignedBeaconBlockHeader{}}, Metadata: map[string]any{}}, nil
+	}
 	return &api.Response[*apiv1.BeaconBlockHeader]{
 		Data: &apiv1.BeaconBlockHeader{
 			Root:      root,
@@ -620,4 +637,12 @@ func c18Oracle(pl *c18Plan, chain *Chain, lookups []*c18LookupRec, deliveries []
 
 func init() {
 	sim.Register(&sim.Scenario{Property: "C18", Name: "cache", Gen: c18Gen, Exec: c18Exec})
+	sim.Register(&sim.Scenario{Property: "C18PROBE", Name: "odd-headers", Exec: c18Exec, Gen: func(p *simrt.Tape) any {
+		pl := c18Gen(p).(*c18Plan)
+		pl.OddHeaders = map[int]int{}
+		for i, n := 0, p.Range(1, 3); i < n; i++ {
+			pl.OddHeaders[p.Pick(6)] = p.Range(1, 3)
+		}
+		return pl
+	}})
 }
